@@ -223,3 +223,113 @@ Section Blocks3.
     Qed.
   End Place.
 End Blocks3.
+
+Lemma nth_error_skipn' {A} (l : list A) k j : nth_error (skipn k l) j = nth_error l (k + j).
+Proof. revert l. induction k as [|k IH]; intros [|x l]; cbn [skipn plus nth_error]; try reflexivity; [destruct j; reflexivity|apply IH]. Qed.
+
+Section Blocks4.
+  Variable call : ident -> graph -> list value -> res (value * graph).
+  Variable okfn : ident -> Prop.
+  Hypothesis Hcall : forall f, okfn f -> call_ok call f.
+  Variable n0 : N.
+  Notation dok := (delta_ok ea0 okfn n0 n0 0).
+  Notation nn d := (N.of_nat (length (d_nodes d))).
+  Notation cden := (cden call).
+
+  Section Unplace.
+    Variables (d : delta) (g : N) (k : nat) (rhoA : list value) (eA : list (N * N)) (aA : list (list aop)).
+    Hypothesis Hd : dok d.
+    Hypothesis Hg : n0 <= g.
+    Let Dp := dren (shg n0 g) (shl 0 (N.of_nat k)) d.
+    Hypothesis HTa : forall j th', nth_error (d_thunks Dp) j = Some th' -> thunk_ok call rhoA (k + j) th'.
+    Hypothesis HEa : Forall2 (den_edge call rhoA) (d_edges Dp) eA.
+    Hypothesis HAa : Forall2 (den_astmt call rhoA) (d_attrs Dp) aA.
+    Hypothesis HPa : Forall (print_ok call rhoA) (d_prints Dp).
+    Let m := length (d_thunks d).
+    Let sb := shg g n0.
+    Let sf := shg n0 g.
+    Let Dpl := dom n0 g (nn d).
+    Let slice := firstn m (skipn k rhoA).
+    Definition unR : list value := map (vren sb) slice.
+    Definition unX : cX := {| x_r := unR; x_e := map (ere sb) eA; x_a := map (map (are sb)) aA |}.
+
+    Lemma placed_thall j th : nth_error (d_thunks d) j = Some th -> thall okfn Dpl (Lk k j) (thren sf (shl 0 (N.of_nat k)) th).
+    Proof.
+      intros E. apply (thall_thren okfn (dom n0 n0 (nn d)) Dpl (Lk 0 j) (Lk k j)); [intros i; apply shg_dom, Hg|unfold Lk, shl; intros l; cbn; lia|].
+      apply (dok_thunks okfn n0 d Hd j th E).
+    Qed.
+    Lemma placed_lsall st : lsall ea0 okfn (dom n0 n0 (nn d)) (Lk 0 m) st -> lsall ea0 okfn Dpl (Lk k m) (lsren sf (shl 0 (N.of_nat k)) st).
+    Proof. apply lsall_lsren; [intros i; apply shg_dom, Hg|unfold Lk, shl; intros l; cbn; lia]. Qed.
+
+    Lemma slice_nth j : (j < m)%nat -> nth_error slice j = nth_error rhoA (k + j).
+    Proof. intros Hj. unfold slice. rewrite nth_error_firstn' by exact Hj. apply nth_error_skipn'. Qed.
+    Lemma big_len j : (j < m)%nat -> exists w, nth_error rhoA (k + j) = Some w.
+    Proof.
+      intros Hj. destruct (nth_error (d_thunks d) j) as [th|] eqn:E; [|apply nth_error_None in E; unfold m in Hj; lia].
+      destruct (HTa j (thren sf (shl 0 (N.of_nat k)) th)) as (v & Hv & _); [unfold Dp, dren; cbn [d_thunks]; rewrite nth_error_map, E; reflexivity|]. eauto.
+    Qed.
+    Lemma slice_len : length slice = m.
+    Proof.
+      unfold slice. rewrite firstn_length, skipn_length. destruct m as [|m'] eqn:Em; [reflexivity|].
+      destruct (big_len m' ltac:(lia)) as (w & Hw). assert (k + m' < length rhoA)%nat by (apply nth_error_Some; congruence). lia.
+    Qed.
+
+    Lemma unplace_seg : forall j w, (j < m)%nat -> nth_error rhoA (k + j) = Some w -> vall Dpl w /\ nth_error unR (0 + j) = Some (vren sb w).
+    Proof.
+      intros j w Hj Hw. split.
+      - refine (seg_valid call okfn Hcall Dpl rhoA k (d_thunks Dp) _ j w _ Hw).
+        + intros j0 th' E. split; [apply HTa, E|]. unfold Dp, dren in E. cbn [d_thunks] in E. rewrite nth_error_map in E.
+          destruct (nth_error (d_thunks d) j0) as [th|] eqn:Eth; [|discriminate]. cbn in E. inversion E; subst th'. apply placed_thall, Eth.
+        + unfold Dp, dren. cbn [d_thunks]. rewrite map_length. exact Hj.
+      - cbn [plus]. unfold unR. rewrite nth_error_map, (slice_nth j Hj), Hw. reflexivity.
+    Qed.
+
+    Lemma rlk_back l : Lk 0 m l -> rlk k 0 (shl 0 (N.of_nat k) l) = l.
+    Proof. unfold Lk, rlk, shl. cbn. lia. Qed.
+
+    Lemma unplace_cden : cden d unX.
+    Proof.
+      destruct (dok_stmts okfn n0 d Hd) as (Hle & Hla & Hlp). split; [|split; [|split]].
+      - split; [cbn [unX x_r]; unfold unR; rewrite map_length; apply slice_len|]. intros i th Hi E. cbn [unX x_r].
+        pose proof (tr_thunk call okfn Hcall Dpl sb rhoA unR k 0 m (shg_back_mono n0 g (nn d) Hg) unplace_seg i (thren sf (shl 0 (N.of_nat k)) th) Hi) as H.
+        cbn [plus] in H. rewrite (thren_back okfn (dom n0 n0 (nn d)) (Lk 0 i) sf (shl 0 (N.of_nat k)) sb (rlk k 0)) in H.
+        + apply H; [apply HTa; unfold Dp, dren; cbn [d_thunks]; rewrite nth_error_map, E; reflexivity|apply placed_thall, E].
+        + intros x Hx. apply (shg_back n0 g (nn d) x Hg Hx).
+        + intros l Hl. unfold Lk, rlk, shl in *. cbn in *. lia.
+        + apply (dok_thunks okfn n0 d Hd i th E).
+      - unfold Dp, dren in HEa. cbn [d_edges] in HEa. cbn [unX x_e x_r]. revert eA HEa. clear HAa HPa. induction Hle as [|st sts Hst _ IH]; intros es HF; inversion HF as [|? e ? es' Hse HF']; subst; cbn [map]; constructor; [|apply IH, HF'].
+        destruct (tr_edge call okfn Hcall Dpl sb rhoA unR k 0 m (shg_back_mono n0 g (nn d) Hg) unplace_seg _ e Hse (placed_lsall st Hst)) as [H _].
+        rewrite (lsren_back ea0 okfn (dom n0 n0 (nn d)) (Lk 0 m) sf (shl 0 (N.of_nat k)) sb (rlk k 0)) in H; [exact H|intros x Hx; apply (shg_back n0 g (nn d) x Hg Hx)|apply rlk_back|exact Hst].
+      - unfold Dp, dren in HAa. cbn [d_attrs] in HAa. cbn [unX x_a x_r]. revert aA HAa. clear HEa HPa. induction Hla as [|st sts Hst _ IH]; intros es HF; inversion HF as [|? e ? es' Hse HF']; subst; cbn [map]; constructor; [|apply IH, HF'].
+        destruct (tr_astmt call okfn Hcall Dpl sb rhoA unR k 0 m (shg_back_mono n0 g (nn d) Hg) unplace_seg _ e Hse (placed_lsall st Hst)) as [H _].
+        rewrite (lsren_back ea0 okfn (dom n0 n0 (nn d)) (Lk 0 m) sf (shl 0 (N.of_nat k)) sb (rlk k 0)) in H; [exact H|intros x Hx; apply (shg_back n0 g (nn d) x Hg Hx)|apply rlk_back|exact Hst].
+      - unfold Dp, dren in HPa. cbn [d_prints] in HPa. clear HEa HAa. induction Hlp as [|st sts Hst _ IH]; cbn [map] in HPa; [constructor|]. inversion HPa as [|? ? Hp0 Hp']; subst. constructor; [|apply IH, Hp'].
+        pose proof (tr_print call okfn Hcall Dpl sb rhoA unR k 0 m (shg_back_mono n0 g (nn d) Hg) unplace_seg _ Hp0 (placed_lsall st Hst)) as H.
+        rewrite (lsren_back ea0 okfn (dom n0 n0 (nn d)) (Lk 0 m) sf (shl 0 (N.of_nat k)) sb (rlk k 0)) in H; [exact H|intros x Hx; apply (shg_back n0 g (nn d) x Hg Hx)|apply rlk_back|exact Hst].
+    Qed.
+
+    (* placing the canonical data again gives back what was there *)
+    Lemma unplace_rho : seg rhoA k (map (vren sf) unR).
+    Proof.
+      intros j w E. cbn [unX x_r] in E. unfold unR in E. rewrite map_map, nth_error_map in E. assert (Hj : (j < m)%nat).
+      { rewrite <- slice_len. apply nth_error_Some. destruct (nth_error slice j); [discriminate|discriminate]. }
+      rewrite (slice_nth j Hj) in E. destruct (nth_error rhoA (k + j)) as [w0|] eqn:Ew; [|discriminate]. cbn in E. inversion E; subst w.
+      destruct (unplace_seg j w0 Hj Ew) as [Hv _]. f_equal. symmetry. rewrite vren_comp. apply (vren_fix Dpl); [|exact Hv]. intros i Hi. apply (shg_forth n0 g (nn d) i Hg Hi).
+    Qed.
+    Lemma unplace_edges : eA = map (ere sf) (x_e unX).
+    Proof.
+      destruct (dok_stmts okfn n0 d Hd) as (Hle & _). unfold Dp, dren in HEa. cbn [d_edges] in HEa. cbn [unX x_e]. revert eA HEa. clear HAa HPa.
+      induction Hle as [|st sts Hst _ IH]; intros es HF; inversion HF as [|? e ? es' Hse HF']; subst; cbn [map]; [reflexivity|]. f_equal; [|apply IH, HF'].
+      destruct (tr_edge call okfn Hcall Dpl sb rhoA unR k 0 m (shg_back_mono n0 g (nn d) Hg) unplace_seg _ e Hse (placed_lsall st Hst)) as [_ He].
+      rewrite ere_comp. symmetry. rewrite (ere_ext Dpl _ (fun i => i) e He); [apply ere_id|]. intros i Hi. apply (shg_forth n0 g (nn d) i Hg Hi).
+    Qed.
+    Lemma unplace_attrs : aA = map (map (are sf)) (x_a unX).
+    Proof.
+      destruct (dok_stmts okfn n0 d Hd) as (_ & Hla & _). unfold Dp, dren in HAa. cbn [d_attrs] in HAa. cbn [unX x_a]. revert aA HAa. clear HEa HPa.
+      induction Hla as [|st sts Hst _ IH]; intros es HF; inversion HF as [|? e ? es' Hse HF']; subst; cbn [map]; [reflexivity|]. f_equal; [|apply IH, HF'].
+      destruct (tr_astmt call okfn Hcall Dpl sb rhoA unR k 0 m (shg_back_mono n0 g (nn d) Hg) unplace_seg _ e Hse (placed_lsall st Hst)) as [_ He].
+      rewrite map_map. rewrite <- (map_id e) at 1. apply map_ext_in. intros o Ho. rewrite are_comp. symmetry. rewrite Forall_forall in He.
+      rewrite (are_ext Dpl _ (fun i => i) o (He o Ho)); [apply are_id|]. intros i Hi. apply (shg_forth n0 g (nn d) i Hg Hi).
+    Qed.
+  End Unplace.
+End Blocks4.
